@@ -56,6 +56,7 @@ type asEp struct {
 	// property's hypothesis (holder alive, lock in place) no longer holds until the loaders are done
 	contested bool
 	dead      bool
+	deadCl    map[int]bool // clients whose liveness key expired and was not refreshed since: holders by the protocol's definition dead
 }
 
 const asKey = "ck"
@@ -139,9 +140,11 @@ func (e *asEp) judge(c *Ctx, line string) {
 	e.mu.Lock()
 	defer e.mu.Unlock()
 	n := 0
+	deadHolder := false
 	for _, g := range e.gets {
 		if g.loading {
 			n++
+			deadHolder = deadHolder || e.deadCl[g.client]
 		}
 		if g.done && g.err == nil && strings.HasPrefix(g.val, rueidisaside.PlaceholderPrefix) {
 			c.Fail("aside:placeholder-returned", line, "Get returned the lock placeholder "+g.val)
@@ -163,7 +166,7 @@ func (e *asEp) judge(c *Ctx, line string) {
 	if parked > 0 && !locked {
 		c.Fail("aside:lost-wakeup", line, fmt.Sprintf("%d Get(s) still wait although the key holds no lock placeholder any more: the holder's result (or the release of the lock) never woke them", parked))
 	}
-	if n > 1 && !e.contested {
+	if n > 1 && !e.contested && !deadHolder {
 		c.Fail("aside:two-loaders", line, fmt.Sprintf("%d loaders run at the same time for one key", n))
 	}
 }
@@ -191,7 +194,7 @@ func (e *asEp) op(c *Ctx, line string) {
 		e.lua = len(w) > 1 && w[1] == "lua=1"
 		e.typed = len(w) > 2 && w[2] == "typed=1"
 		e.admin = newFakeClient(e.srv, 99, rueidis.ClientOption{})
-		e.clients, e.fcs, e.gets, e.loads, e.contested = map[int]rueidisaside.CacheAsideClient{}, map[int]*fakeClient{}, nil, 0, false
+		e.clients, e.fcs, e.gets, e.loads, e.contested, e.deadCl = map[int]rueidisaside.CacheAsideClient{}, map[int]*fakeClient{}, nil, 0, false, map[int]bool{}
 		c.Emit(line, "ok", false)
 	case "s.acq", "s.set", "s.del": // script level: s.acq id | s.set id val | s.del id   (ids and values are plain words)
 		name := map[string]string{"s.acq": "as.acquire", "s.set": "as.setkey", "s.del": "as.delkey"}[w[0]]
@@ -368,6 +371,9 @@ func (e *asEp) op(c *Ctx, line string) {
 		emit()
 	case "death": // the liveness key of client c expires
 		e.contested = true
+		if len(e.idsOf(int(w[1][0]-'0'))) > 0 {
+			e.deadCl[int(w[1][0]-'0')] = true
+		}
 		for _, id := range e.idsOf(int(w[1][0] - '0')) {
 			e.srv.mu.Lock()
 			if e.srv.keys[id] != nil {
@@ -381,6 +387,7 @@ func (e *asEp) op(c *Ctx, line string) {
 		emit()
 	case "refresh": // what the refresh goroutine does every ClientTTL/2
 		ci := int(w[1][0] - '0')
+		delete(e.deadCl, ci)
 		for _, id := range e.idsOf(ci) {
 			fc := e.fcs[ci]
 			_ = fc.Do(context.Background(), fc.B().Set().Key(id).Value("").Px(time.Hour).Build())
